@@ -6,6 +6,7 @@ INVARIANT KeyboardEndsOnlyOnBlankOrEOF
 INVARIANT AssertionOnlyForTaggedGap
 INVARIANT CategoriesParsedOnce
 INVARIANT DictionaryNeverLoaded
+INVARIANT AttributesAreTheInputs
 INVARIANT Emit
 PROPERTY Terminates
 CHECK_DEADLOCK FALSE
